@@ -82,7 +82,13 @@ fn child(args: &[String]) -> i32 {
                 Ok(g) => g,
                 Err(e) => {
                     let msg = e.downcast_ref::<String>().cloned().or_else(|| e.downcast_ref::<&str>().map(|x| x.to_string())).unwrap_or_default();
-                    println!("LOOM-FAIL panic-under-schedule: finish() panicked in execution {}: {}", EXECS.load(Ordering::Relaxed), msg);
+                    if msg.contains("Loom execution state") || msg.contains("outside a Loom model") {
+                        // threads that are not loom threads touched loom primitives: the code under test spawns threads through a
+                        // primitive this engine does not intercept - an engine limitation, not a verdict
+                        println!("LOOM-MACHINERY non-intercepted threads: {}", msg);
+                    } else {
+                        println!("LOOM-FAIL panic-under-schedule: finish() panicked in execution {}: {}", EXECS.load(Ordering::Relaxed), msg);
+                    }
                     std::panic::resume_unwind(e)
                 }
             };
